@@ -1,7 +1,10 @@
 (* Byte-memory lemmas for Model/Broadcast.v: reads after writes, frame rules,
    little-endian encode/decode, hex injectivity. *)
 From Coq Require Import FMapPositive String Ascii.
-Require Import V.Base.MachineInt V.Generated.GenConsts V.Model.Broadcast V.Model.BroadcastShow.
+Require Import V.Base.MachineInt.
+Require Import V.Generated.GenConsts.
+Require Import V.Model.Broadcast.
+Require Import V.Model.BroadcastShow.
 From Coq Require Import ZifyBool.
 Open Scope Z_scope.
 
